@@ -7,7 +7,7 @@ from . import c01, c03
 
 ID = "C02"
 KINDS = {"U": ["weight_triangle", "nearest_decoder_corrects", "ml_is_nearest", "ml_corrects", "ml_corrects_large", "syndrome_decoder_corrects", "syndrome_table_entry", "hamming_inverse_corrects",
-               "bm_reduction (BMProofs.correct_add_of_zero, syndAt_codeword)", "bm_corrects_small",
+               "bm_reduction (BMProofs.correct_add_of_zero, syndAt_codeword)", "bm_corrects_small", "bm_output_certified (BMProofs.light_zero_syndromes_zero)",
                "ReedProofs.reed_corrects (reed_decoder_corrects)"],
          "R": ["syndrome_decoder_instances"],
          "K": ["C03.instances_ok (distances, shared catalogue)", "C01.instances_ok (null space, right inverse)", "C03.bch_ok", "bm_light_small", "reed_ok", "reed_instances_in_catalogue"]}
@@ -231,6 +231,19 @@ def corr(ctx):
                     ops.append(Op("bmdec %s %d %d %d %s" % (name, PP, mm, tt, bits(w)), o, nontrivial=bool(p_),
                                   info={"site": site, "config": dict(cfg, sent=bits([0] * k), weight=len(p_), zero_codeword=True)}, prop_ok=(o == bits([0] * k))))
                 ctx.count("bm_light_patterns_on_zero_codeword", len(LW))
+                # certificate of every answer (C02.bm_output_certified): corrected word = received xor reported error pattern must have
+                # all-zero syndromes and lie within distance t of the received word - evaluated by the model on the implementation's output
+                import torch as _t
+                CW = [w for w, _, _ in cs[: (300 if ctx.thorough else 80)]] + LW[: (600 if ctx.thorough else 150)]
+                try:
+                    _, errs = fn(_t.tensor(CW, dtype=_t.float32), return_errors=True)
+                    for w, er in zip(CW, errs.tolist()):
+                        corr_w = [int(round(a)) ^ int(round(b)) for a, b in zip(w, er)]
+                        ops.append(Op("bmcert %s %d %d %s %s" % (name, PP, tt, bits(corr_w), bits(w)), "ok", nontrivial=any(int(round(b)) for b in er),
+                                      info={"site": site + ".certificate", "config": dict(cfg)}))
+                    ctx.count("bm_certified_outputs", len(CW))
+                except Exception as e_:
+                    ops.append(Op("bmcert %s %d %d %s %s" % (name, PP, tt, bits(CW[0]), bits(CW[0])), "other:%s" % type(e_).__name__, info={"site": site + ".certificate", "config": dict(cfg)}))
                 # internals, also beyond the capability (arbitrary words): model and implementation must agree step by step
                 rng = ctx.rng
                 sample = [w for w, _, _ in cs[:6]] + [[rng.getrandbits(1) for _ in range(n)] for _ in range(6)] if tt >= 1 else []
